@@ -272,6 +272,17 @@ class Hang(Exception):
     pass
 
 
+def safe_close(bw):
+    """Best-effort close of a BufferedWriter after a failure: never leave an armed (non-daemon) flush timer behind."""
+    try:
+        bw.close()
+    except Exception:  # noqa
+        pass
+    t = getattr(bw, "timer", None)
+    if t is not None:
+        t.cancel()
+
+
 def run_async_tx(ix, wa, prev_tx, tx, plan, stats):
     """Run `prev_tx` (may be None) in a plain writer that holds the lock while `tx` is handed to an AsyncWriter.
     plan: {"mode": "free"|"blocked", "release": "before_commit"|"after_commit", "sleep": s, "delay": s}"""
@@ -357,7 +368,7 @@ def run_history_inproc(st, h, cfg, rng, info):
                 w.commit(**tx["commit"])
             elif fe["kind"] == "buffered":
                 apply_ops(bw, tx["ops"])
-                if fe["period"] and rng.random() < 0.3:
+                if fe["period"] and fe["period"] < 1 and rng.random() < 0.3:
                     time.sleep(rng.choice([0.0, 0.01, fe["period"] * 1.2]))
                 if i < len(txs) - 1 and rng.random() < 0.8:
                     bw.commit()
@@ -379,10 +390,7 @@ def run_history_inproc(st, h, cfg, rng, info):
             st = copy_to_ram(st)
     finally:
         if bw is not None:
-            try:
-                bw.close()
-            except Exception:  # noqa
-                pass
+            safe_close(bw)
     return st
 
 
@@ -937,10 +945,7 @@ def case_bw_sequential(ctx, idx, rng):
                     bw_after_close(ctx, w, st, cfg, live, opts, "sequential")
         finally:
             if not closed:
-                try:
-                    bw.close()
-                except Exception:  # noqa
-                    pass
+                safe_close(bw)
         if hit_buffered:
             ctx.count("c18.bw.ops_with_buffered_docs", hit_buffered)
         ctx.case(("bw-seq", fe["limit"], cfg["storage"], cfg["compound"], tuple(p[0] for p in prog)), len(prog) >= 4,
@@ -1099,10 +1104,7 @@ def case_bw_timer(ctx, idx, rng):
                         ctx.fail("c18.bw.timer", "timer-alive-after-close", w, "flush timer still armed after close()")
         finally:
             if not closed:
-                try:
-                    bw.close()
-                except Exception:  # noqa
-                    pass
+                safe_close(bw)
         ctx.count("c18.bw.timer_runs")
         ctx.case(("bw-timer", period, len(live)), True)
     finally:
